@@ -160,8 +160,12 @@ def get_type_graph(t: type) -> graphlib.TopologicalSorter[TypeNode]:
                 ref = refs.forwardref(
                     refname, is_argument=is_argument, module=module, is_class=is_class
                 )
+                # The unwrapped class is named within its own module, not the module of its wrapper.
                 uref = refs.forwardref(
-                    unwrapped, is_argument=is_argument, module=module, is_class=is_class
+                    unwrapped,
+                    is_argument=is_argument,
+                    module=getattr(unwrapped, "__module__", module),
+                    is_class=is_class,
                 )
                 node = TypeNode(ref, uref, var=var, cyclic=True)
             # Otherwise, add the type to the stack and track that it's been seen.
